@@ -90,6 +90,14 @@ static int line_to_instr(struct instr *instr_data, char *filtered_asm_str) {
   instr_data->key = str_to_instr_key(instr_data->instruction, opd_format);
   FAIL_IF_VAR(instr_data->key == INSTR_ERROR,
               "unsupported or illegal instruction: %s\n", asm_str);
+  // the operand format `n` stands for "no operand" as well as for "one
+  // immediate": the operand encoding of the row tells which of the two the
+  // instruction takes
+  if (opd_format == n) {
+    bool takes_imm = (int)INSTR_TABLE[instr_data->key].encode_operand != NA;
+    FAIL_IF_VAR(takes_imm != instr_data->imm,
+                "illegal operand format for instruction: %s\n", asm_str);
+  }
   if (instr_data->imm && TYPE(instr_data->key, CONTROL_FLOW)) {
     // the operand is a signed displacement: it has to fit the rel32 field,
     // and the rel8 field when the short form is requested or the only one
